@@ -104,6 +104,10 @@ def rule_a(prog, chk):
         if f.cfg is None or not f.d.get("main") or os.path.relpath(f.file, REPO) not in UNITS:
             continue
         rv = gates.raw_sample_vars(prog, f)
+        # computed ranks (indiceToRank ...) are only judged in the object-style units; the old-style functions of
+        # krige.cpp that walk a grid by indices (factorial kriging analysis, image tools) are out of the anchored algorithms
+        if os.path.relpath(f.file, REPO) == "src/Core/krige.cpp":
+            rv = [r for r in rv if not r[3].get("computed")]
         if not rv:
             continue
         gc = Ctx05(f)
@@ -139,6 +143,46 @@ def rule_a(prog, chk):
     chk.floor("C05a", n, 60)
 
 
+def rule_c(prog, chk):
+    """the kriging entry point gates its target rank: every store into the output data base made (transitively, on this) by
+    KrigingSystem::estimate happens after `_dbout->isActive(_iechOut)` on every path"""
+    f = prog.fn("KrigingSystem::estimate")
+    chk.analysed(f)
+    g = CFG(f)
+
+    def is_gate_edge(blk, k, s_):
+        c = g.cond(blk["b"])
+        if c is None or len(blk["s"]) != 2:
+            return True
+        core, pol = peel_cond(c)
+        if core is not None and core["k"] == "MCall" and (core.get("callee") or "").endswith("::isActive") and "_dbout" in show(call_obj(core)):
+            return ((k == 0) == pol) is False          # only the edge on which the target is NOT active stays: it must not reach a store
+        return True
+    # stores: calls on this of the result-writing members
+    writers = {"_estimateCalcul", "_estimateCalculImage", "_estimateCalculXvalidUnique", "_simulateCalcul", "_neighCalcul"}
+    n = 0
+    for c in f.calls():
+        short = (c.get("callee") or "").split("::")[-1]
+        if short not in writers:
+            continue
+        n += 1
+        # reachable when the gate was not passed = (a) via the inactive edge, or (b) avoiding the test altogether
+        def avoid_test(blk, k, s_):
+            cc = g.cond(blk["b"])
+            if cc is None or len(blk["s"]) != 2:
+                return True
+            core, pol = peel_cond(cc)
+            if core is not None and core["k"] == "MCall" and (core.get("callee") or "").endswith("::isActive") and "_dbout" in show(call_obj(core)):
+                return ((k == 0) == pol) is False
+            return True
+        w = g.search(g.entry_pos(), is_target=lambda x, c=c: x["i"] == c["i"], edge_ok=avoid_test)
+        chk.ob("C05c", "KrigingSystem::estimate: %s() runs only for an active target" % short, f.loc(c), w is None,
+               detail=None if w is None else "the result is stored for a target that did not pass _dbout->isActive(_iechOut): masked target "
+               "sites are estimated and overwritten", key="C05c|KrigingSystem::estimate|" + short,
+               path=None if w is None else g.describe(w))
+    chk.floor("C05c", n, 4)
+
+
 def rule_b(prog, chk):
     """outputs of target-skipping calculators are created undefined"""
     import c19
@@ -163,9 +207,11 @@ def rule_b(prog, chk):
         for short, f in pre.items():
             if f.name in c19.REGISTRARS:
                 continue
+            ordinal = 0
             for c in f.calls():
                 if c.get("callee") not in c19.REGISTRARS:
                     continue
+                ordinal += 1
                 a = call_args(c)
                 idx = c19.REGISTRARS[c["callee"]]
                 which = a[0] if c["callee"].startswith("ACalcDbToDb") else None
@@ -191,7 +237,7 @@ def rule_b(prog, chk):
                        f.loc(c), bool(undefined),
                        detail=None if undefined else "the output column is created with %s; targets skipped because they are masked keep that "
                        "value instead of the undefined value" % txt,
-                       key="C05b|%s|%s" % (K, show(c)[:40]))
+                       key="C05b|%s|%s#%d" % (K, f.name, ordinal))
     chk.floor("C05b", n, 6)
 
 
@@ -216,5 +262,6 @@ def main(tier):
     for k, v in DERIVED_ACTIVE.items():
         chk.assumptions.append("derived activity predicate %s: %s" % (k, v))
     rule_a(prog, chk)
+    rule_c(prog, chk)
     rule_b(prog, chk)
     return chk.finish()
